@@ -477,6 +477,7 @@ func (e *Engine) verifyFunction(key string, ct *Contract) (res *FnResult) {
 	st := &State{guard: "true", heap: map[string]string{}}
 	st.alloc = fc.smt.declare("alloc0", "Int")
 	fc.assume(st, app("<=", "0", st.alloc))
+	fc.baseAlloc = map[int]string{0: st.alloc}
 	fc.curSt = st
 	env := &SpecEnv{fc: fc, st: st, pkg: fn.Pkg.Pkg, vars: map[string]TV{}}
 	for i, p := range fn.Params {
@@ -586,6 +587,19 @@ func (fc *FnCtx) frameCheck(rs *State, env *SpecEnv, pos token.Pos) {
 		h0 := fc.heapSym(fc.pre, k, srt)
 		h1 := fc.heapSym(rs, k, srt)
 		if h0 == h1 {
+			continue
+		}
+		if !strings.HasPrefix(srt, "(Array") {
+			// scalar ghost (e.g. the clock): unchanged unless listed
+			listed := false
+			for _, tg := range targets {
+				if tg.scalarGhost && tg.ghost == k {
+					listed = true
+				}
+			}
+			if !listed {
+				fc.oblige(rs.clone(), eq(h1, h0), "frame:"+k, "frame", pos, "only assigned locations change: "+k)
+			}
 			continue
 		}
 		r := fc.smt.declare("fr", "Int")
